@@ -379,6 +379,8 @@ impl DOPRI5 {
                         nonstiff = 0;
                         iasti += 1;
                         if iasti == 15 {
+                            // The step is abandoned (its state is never reported): not an accepted step
+                            steps.accepted -= 1;
                             status = Status::ProbablyStiff;
                             break;
                         }
